@@ -49,6 +49,9 @@ int main(void) {
       sdk_conn_open = 0;
       sdk_disc_pending = 0;
       supla_esp_dns_disconnect_cb(&dns_client_vars.conn);
+    } else if (!strcmp(op, "connres") && ops_ntok >= 2) { /* results of the next espconn_connect calls */
+      sdk_connect_script_len = sdk_connect_script_pos = 0;
+      for (int i = 1; i < ops_ntok && sdk_connect_script_len < 16; i++) sdk_connect_script[sdk_connect_script_len++] = atoi(ops_tok[i]);
     } else if (!strcmp(op, "fire") && ops_ntok == 2) {
       fire(!strcmp(ops_tok[1], "timeout") ? &dns_client_vars.timeout_timer : &dns_client_vars.retry_timer);
     } else sdk_out("BADOP");
